@@ -93,6 +93,11 @@ def judge_sequence(kind, ident, seed, ops, wrap_state=False, reuse=False):
             ge.set_state_representation('default')
         top = GG.GymStateWrapper(ge)
     started = False
+    retained = []
+
+    def snap(d):
+        return {k: np.array(v, copy=True) for k, v in d.items()} if isinstance(d, dict) else d
+
     for i, op in enumerate(ops):
         where = f'{kind} {ident} seed {seed}: operation {i} {op} of {ops}'
         orep = make_observation_representation(oname, twin.observation_space)
@@ -125,6 +130,10 @@ def judge_sequence(kind, ident, seed, ops, wrap_state=False, reuse=False):
             continue
         if op[0] == 'reset':
             out = top.reset()
+            # returned arrays are snapshotted at once: computing the expected values below calls the same library
+            # conversions, which must not be able to overwrite what was already handed out
+            retained.append((out, snap(out), where))
+            out = snap(out)
             twin.reset()
             started = True
             obs, reward, done, info = out, None, None, None
@@ -132,9 +141,13 @@ def judge_sequence(kind, ident, seed, ops, wrap_state=False, reuse=False):
             if not started:
                 continue
             out = top.step(op[1])
-            tr, td = twin.step(actions[op[1]])
             if not (isinstance(out, tuple) and len(out) == 4):
                 return f'{where}: step returned {type(out).__name__} of length {len(out) if hasattr(out, "__len__") else "?"}'
+            retained.append((out[0], snap(out[0]), where))
+            if isinstance(out[3], dict) and 'observation' in out[3]:
+                retained.append((out[3]['observation'], snap(out[3]['observation']), where + ' info[observation]'))
+            out = (snap(out[0]), out[1], out[2], {k: (snap(v) if isinstance(v, dict) else v) for k, v in out[3].items()} if isinstance(out[3], dict) else out[3])
+            tr, td = twin.step(actions[op[1]])
             obs, reward, done, info = out
             if reward != tr or bool(done) != bool(td) or isinstance(reward, bool):
                 return f'{where}: step returned reward/done ({reward}, {done}), the wrapped environment gives ({tr}, {td})'
@@ -165,6 +178,9 @@ def judge_sequence(kind, ident, seed, ops, wrap_state=False, reuse=False):
                 return f'{where}: gym-level state is not the representation of the inner state'
             if ge.state_space is not None and not ge.state_space.contains(ge.state):
                 return f'{where}: gym-level state outside the advertised state space'
+    for original, copy_, where in retained:
+        if isinstance(original, dict) and not arrays_equal(original, copy_):
+            return f'{where}: arrays handed out earlier were overwritten by later calls (aliased buffers)'
     return None
 
 
